@@ -442,6 +442,9 @@ async def async_unload_entry(hass: HomeAssistant, config_entry: ConfigEntry) -> 
         unsub_listener()
     hass.data[DOMAIN][UNSUB_LISTENERS] = []
 
+    for service in (SERVICE_RELOAD, SERVICE_GENERATE_STUBS, SERVICE_JUPYTER_KERNEL_START):
+        hass.services.async_remove(DOMAIN, service)
+
     # sync with waiter, and then tell waiter and reaper tasks to exit
     await Function.waiter_sync()
     await Function.waiter_stop()
